@@ -87,15 +87,19 @@ theorem C14_exact_mask (coords : List V3) (cs : Rat) (sel : Option (List Bool)) 
     exact (List.getElem?_eq_some_iff.mp hp).1
 
 /-- Batches: whenever the batch call answers, row `i` is the exact set for query `i` with its
-radius (scalar or per-query). -/
+radius (scalar or per-query) — also when the result-buffer length wrapped to a still sufficient value.
+Hypothesis `hsmall`: every `ceil(r/cs)` fits int32; beyond it a scalar radius is refused
+(`C14_scalar_radius_beyond_int32_rejects`) and per-query radii are silently wrong
+(`C14_per_query_radius_beyond_int32_defect`). -/
 theorem C14_exact_batch (coords : List V3) (cs : Rat) (sel : Option (List Bool)) (c : CL)
     (h : mk coords cs none sel = some (.ok c)) (qs : List V3) (rad : Rad Rat) (rows : List (List Nat))
+    (hsmall : ∀ r ∈ rad.expand qs.length, c.cellRadius r < 2 ^ 31)
     (hb : c.atomsBatch qs rad = some (.ok rows)) :
     rows.length = min qs.length (rad.expand qs.length).length ∧
     ∀ (i : Nat) (q : V3) (r : Rat) (row : List Nat), qs[i]? = some q → (rad.expand qs.length)[i]? = some r → rows[i]? = some row →
       ∀ t, t ∈ row ↔ ∃ p, coords[t]? = some p ∧ (selMask sel coords.length)[t]? = some true ∧
         sqDist q p ≤ r * r := by
-  have hrows := atomsBatch_rows c qs rad rows hb
+  have hrows := atomsBatch_rows c qs rad rows hsmall hb
   constructor
   · rw [hrows]; simp
   · intro i q r row hq hr hrow t
@@ -119,10 +123,93 @@ theorem C14_batch_defined (c : CL) (qs : List V3) (rad : Rad Rat) (hq : qs ≠ [
       some (.ok ((qs.zip (rad.expand qs.length)).map fun qr => c.atomsOne qr.1 qr.2)) :=
   atomsBatch_ok c qs rad hq hchk hsmall hfit
 
-/-- scalar ⇔ per-query radii. -/
-theorem C14_scalar_iff_multi (c : CL) (qs : List V3) (r : Rat) :
+/-- scalar ⇔ per-query radii (for `ceil(r/cs) < 2^31`; beyond it the two differ: see the defect below). -/
+theorem C14_scalar_iff_multi (c : CL) (qs : List V3) (r : Rat) (hsmall : c.cellRadius r < 2 ^ 31) :
     c.atomsBatch qs (.scalar r) = c.atomsBatch qs (.multi (List.replicate qs.length r)) :=
-  scalar_eq_multi c qs r
+  scalar_eq_multi c qs r hsmall
+
+/-- A scalar radius with `ceil(r/cs) ≥ 2^31` is refused with `OverflowError` (never answered). -/
+theorem C14_scalar_radius_beyond_int32_rejects (c : CL) (qs : List V3) (r : Rat) (hq : qs ≠ []) (hr : 0 ≤ r)
+    (hh : 2 ^ 31 ≤ c.cellRadius r) : c.atomsBatch qs (.scalar r) = some (.error .overflowError) :=
+  atomsBatch_scalar_huge c qs r hq hr hh
+
+/-- Known defect (kept visible; known finding `C14/per-query-radius/cell-radius-beyond-int32-silently-empty`):
+the same radius given per query is *not* refused: `ceil(r/cs).astype(int32)` wraps, the window is empty and the
+query silently returns nothing — here radius `2^32` with cell size 1 finds none of the two atoms at distance ≤ 1,
+while the second query (radius 1) is answered correctly. -/
+theorem C14_per_query_radius_beyond_int32_defect :
+    ∃ c, mk [⟨0,0,0⟩, ⟨1,0,0⟩] 1 none none = some (.ok c) ∧
+      c.atomsBatch [⟨0,0,0⟩, ⟨0,0,0⟩] (.multi [4294967296, 1]) = some (.ok [[], [0, 1]]) ∧
+      c.atomsBatch [⟨0,0,0⟩, ⟨0,0,0⟩] (.scalar 4294967296) = some (.error .overflowError) :=
+  ⟨_, rfl, by decide +kernel, by decide +kernel⟩
+
+/-- The batch also answers (with the same rows) when the buffer length wrapped to a positive value that still
+holds everything every query writes. -/
+theorem C14_batch_defined_wrapped (c : CL) (qs : List V3) (rad : Rad Rat) (hq : qs ≠ [])
+    (hchk : rad.check qs.length (fun r => decide (r < 0)) = .ok ())
+    (hsmall : ∀ r ∈ rad.expand qs.length, c.cellRadius r < 2 ^ 31)
+    (hw : c.guard (maxRadius ((rad.expand qs.length).map c.cellRadius)) = .wrapped)
+    (hlen : ((qs.zip ((rad.expand qs.length).map c.cellRadius)).all fun qr =>
+      decide ((c.scanLen CL.scan qr.1 qr.2 : Int) ≤
+        wrap32 (c.bufLen (maxRadius ((rad.expand qs.length).map c.cellRadius))))) = true) :
+    c.atomsBatch qs rad =
+      some (.ok ((qs.zip (rad.expand qs.length)).map fun qr => c.atomsOne qr.1 qr.2)) := by
+  unfold CL.atomsBatch CL.atomsBatchWith
+  have he : qs.isEmpty = false := by simpa using hq
+  have hany := any_huge_false c.cellRadius _ hsmall
+  simp only [he, hchk, hany, hw, CL.wrappedAnswer, hlen]
+  rfl
+
+/-- 16 atoms on one point (one cell holds 16 = `max_cell_length`) and three more in neighbouring cells -/
+def dupWitness : List V3 :=
+  List.replicate 16 ⟨0,0,0⟩ ++ [⟨3/2,0,0⟩, ⟨5/2,0,0⟩, ⟨7/2,0,0⟩]
+
+/-- Known defect beyond `Guard.fits`/`negative` (kept visible; known finding
+`C14/result-buffer-length-int-overflow/wrapped-positive-length-truncates-result`, replayed on the real code):
+with cell radius `2^27` the C `int` length `(2·2^27+1)³·16` wraps to **16**, but the query writes 19 indices
+(`mem_scan_iff`: the literal scan visits exactly the atoms `scanFast` lists): the code writes past the row and
+returns only 16 of the 19 atoms.  The model abstains (`none`) exactly there. -/
+theorem C14_wrapped_buffer_defect :
+    ∃ c, mk dupWitness 1 none none = some (.ok c) ∧
+      c.guard (2 ^ 27) = .wrapped ∧ wrap32 (c.bufLen (2 ^ 27)) = 16 ∧
+      c.scanLen CL.scanFast ⟨0,0,0⟩ (2 ^ 27) = 19 ∧
+      c.cellsBatchWith CL.scanFast [⟨0,0,0⟩] (.scalar (2 ^ 27)) = none :=
+  ⟨_, rfl, by decide +kernel, by decide +kernel, by decide +kernel, by decide +kernel⟩
+/-- Negative radii are refused with `ValueError` (scalar; never answered). -/
+theorem C14_negative_radius_rejects (c : CL) (qs : List V3) (r : Rat) (hq : qs ≠ []) (hr : r < 0) :
+    c.atomsBatch qs (.scalar r) = some (.error .valueError) := by
+  unfold CL.atomsBatch CL.atomsBatchWith
+  have he : qs.isEmpty = false := by simpa using hq
+  simp [he, Rad.check, hr]
+
+/-- The constructor (no box) refuses exactly: a selection error, or `cell_size ≤ 0`; otherwise it constructs. -/
+theorem C14_constructor_rejects (coords : List V3) (cs : Rat) (sel : Option (List Bool)) :
+    (∀ e, selError coords sel = some e → mk coords cs none sel = some (.error e)) ∧
+    (selError coords sel = none → cs ≤ 0 → mk coords cs none sel = some (.error .valueError)) ∧
+    (selError coords sel = none → 0 < cs → ∃ c, mk coords cs none sel = some (.ok c)) := by
+  refine ⟨?_, ?_, ?_⟩
+  · intro e he; simp [mk, he]
+  · intro he hc; simp [mk, he, boxOk, hc]
+  · intro he hc
+    have hne : coords ≠ [] := by
+      intro h0; subst h0
+      cases sel with
+      | none => simp [selError] at he
+      | some s =>
+        simp only [selError] at he
+        split at he
+        · simp at he
+        · rename_i hl
+          have : s = [] := by simpa using hl
+          subst this; simp at he
+    obtain ⟨p, ps, rfl⟩ := List.exists_cons_of_ne_nil hne
+    exact ⟨build (p :: ps) cs none sel p ps, by simp [mk, he, boxOk, not_le.mpr hc, allCoords]⟩
+
+/-- A singular box matrix is refused (`numpy.linalg.inv` raises `LinAlgError`) before the cell size is looked at. -/
+theorem C14_singular_box_rejects (coords : List V3) (cs : Rat) (B : M3) (sel : Option (List Bool))
+    (hs : selError coords sel = none) (hd : B.det = 0) :
+    mkG coords cs B sel = some (.error (.other "LinAlgError")) := by
+  simp [mkG, hs, hd]
 
 /-- Known defect (kept visible): with 5 atoms, cell size 1 and radius 700 — the documented
 "radius larger than the extent" use — `(2*700+1)**3 * 1` does not fit a C `int`, wraps negative
@@ -191,7 +278,16 @@ theorem C14_adjacency_eq (coords : List V3) (cs : Rat) (sel : Option (List Bool)
     split at ha
     · rename_i rows0 hb
       simp only [Option.some.injEq, Except.ok.injEq] at ha
-      have hrows0 := atomsBatch_rows c _ _ rows0 hb
+      have hsm : ∀ r ∈ (Rad.scalar thr).expand
+          (List.filterMap (fun ps : V3 × Bool => if ps.2 = true then some ps.1 else none)
+            ((List.take c.n c.coord).zip c.sel)).length, c.cellRadius r < 2 ^ 31 := by
+        intro r hr
+        simp only [Rad.expand, List.mem_replicate] at hr
+        have hq : (List.filterMap (fun ps : V3 × Bool => if ps.2 = true then some ps.1 else none)
+            ((List.take c.n c.coord).zip c.sel)) ≠ [] := by
+          intro h0; rw [h0] at hr; simp at hr
+        rw [hr.2]; exact atomsBatch_scalar_small c _ thr rows0 hq hb
+      have hrows0 := atomsBatch_rows c _ _ rows0 hsm hb
       simp only [Rad.expand] at hrows0
       rw [zip_replicate_map (fun q r => c.atomsOne q r)] at hrows0
       have hbase : List.take c.n c.coord = coords := by
